@@ -13,6 +13,11 @@ def main():
     elif p.get("replay_kind") == "pair" and "rename_back" in p:
         from checks.sys_checks import replay_pair
         still = replay_pair(p)
+    elif p.get("replay_kind") == "nest-reuse":
+        from checks.sys_checks import _nest_reuse_eval
+        r = _nest_reuse_eval(p["variant"])
+        print("native:", r)
+        still = bool(r.get("diffs")) or "exception" in r
     elif p.get("replay_kind") == "latin":
         from checks.sys_checks import _latin_eval
         r = _latin_eval((tuple(p["sizes"]), p["strategy"], 12))
